@@ -193,7 +193,7 @@ def conditions(tier, seed, active):
             for h, k in RELATED.get(name, []):
                 if d not in tp.BY_NAME[h].drafts or name in tp.top_keys(h, d):
                     continue
-                for vk in (("int", "bool", "obj_int") if quick else ("int", "bool", "obj_int", "null", "str", "arr_int")):
+                for vk in (("int", "bool") if quick else ("int", "bool", "obj_int", "null", "str", "arr_int")):
                     c("related/%s=%s/%s/d%d" % (name, vk, h, d), "foreign", dict(d=d, host=h, kind=k, name=name, vkind=vk, NV=nv))
         # next to $ref: any keyword of the draft itself as well
         # (Draft 3 `required` next to $ref inside `properties` is read lexically by the parent: excluded by the property)
